@@ -4,7 +4,7 @@
    spawning thread has and whatever the parent's SIGPIPE disposition is, both are overwritten, so the
    state at exec does not depend on them. *)
 From Coq Require Import List NArith Bool Arith.
-Require Import SP.Lib.Spawn SP.Proofs.SpawnProofs.
+Require Import SP.Lib.Spawn SP.Lib.SigState SP.Proofs.SpawnProofs SP.Proofs.SigProofs.
 Import ListNotations.
 
 (* in every started child both resets were applied, before any identity change and before exec; and exactly
@@ -12,6 +12,21 @@ Import ListNotations.
 Theorem C18_child_signal_state : forall c, In c (configs_full ++ configs_opts) -> signal_state_clean c = true.
 Proof. exact child_signal_state. Qed.
 Print Assumptions C18_child_signal_state.
+
+(* for EVERY signal mask of the spawning thread (a bit set of unbounded width) and every SIGPIPE disposition of the
+   parent: the program image of every started child begins with an empty mask and the default action for SIGPIPE
+   (Lib/SigState.v: fork copies, the child's effects act in order, execve keeps mask and ignored signals) *)
+Theorem C18_image_starts_clean : forall c parent,
+  In c (configs_full ++ configs_opts) ->
+  (forall t eff, o_child_out (run None exec_yes c) = Started t eff -> image_state parent eff = clean)
+  /\ ((forall t eff, o_child_out (run None exec_yes c) <> Started t eff) -> invalid c = true).
+Proof. exact image_starts_clean. Qed.
+Print Assumptions C18_image_starts_clean.
+
+(* ... and it is the resets that do it: a child that only changes directory and identity inherits both *)
+Theorem C18_no_reset_inherits : forall parent, image_state parent [50; 2; 1; 3] = at_exec parent.
+Proof. exact no_reset_inherits. Qed.
+Print Assumptions C18_no_reset_inherits.
 
 Example C18_nonvacuous :
   match o_child_out (run None exec_yes (mk RNone RNone RNone true true true true false false 1)) with
